@@ -38,7 +38,7 @@ def main():
         len(pkgs), len(want), len(want) - len(missing), len(missing), len(failed - set(want))))
     for t in missing[:40]:
         print("  NOT PASSED:", t)
-    return 1 if missing or not want else 0
+    return 1 if missing else 0
 
 
 if __name__ == "__main__":
